@@ -318,6 +318,20 @@ func (e *Env) ident(name string) (Val, error) {
 	if name == "$k" {
 		name = "rangeindex"
 	}
+	if strings.HasPrefix(name, "$") {
+		if gv, ok := e.x.cs.GhostVars[name[1:]]; ok {
+			ty, err := e.x.prog.LookupType(gv.Type, e.pkg)
+			if err != nil {
+				return Val{}, fmt.Errorf("ghost var %s: %v", name, err)
+			}
+			ls := e.u().Layout(ty)
+			v := Val{T: ty, S: make([]Term, len(ls))}
+			for i, sl := range ls {
+				v.S[i] = e.u().ghost(e.st, "var."+gv.Name+sl.Suffix, sl.So)
+			}
+			return v, nil
+		}
+	}
 	// local variable of the frame, by source name
 	if e.fr != nil {
 		base, ord := name, 1
@@ -400,6 +414,12 @@ func (e *Env) object(obj types.Object) (Val, error) {
 }
 
 func (e *Env) pkgByName(name string) *types.Package {
+	if e.pkg != nil && e.pkg.Name() == name {
+		return e.pkg
+	}
+	if pk, ok := e.x.prog.ByPath[name]; ok {
+		return pk.Types
+	}
 	if e.pkg != nil {
 		for _, imp := range e.pkg.Imports() {
 			if imp.Name() == name {
@@ -520,6 +540,12 @@ func (e *Env) ghostField(xv Val, name string) (Val, error) {
 				gf = g
 				break
 			}
+			if err == nil && types.IsInterface(gt) && classify(owner) == KIface && types.AssignableTo(owner, gt) {
+				// ghost field declared on an interface that this interface embeds: keyed by the declared owner
+				gf = g
+				owner = types.Unalias(gt)
+				break
+			}
 			if err != nil && strings.HasSuffix(typeKey(owner), g.Owner) {
 				gf = g
 				break
@@ -588,9 +614,13 @@ func (e *Env) index(t EIndex) (Val, error) {
 		ls := u.Layout(tt.Elem())
 		v := Val{T: tt.Elem(), S: make([]Term, len(ls))}
 		pos := u.IAdd(xv.S[1], idx)
-		if pre := "(- "; strings.HasPrefix(idx.S, pre) && strings.HasSuffix(idx.S, " "+xv.S[1].S+")") {
+		shifted := "(- %s " + xv.S[1].S + ")"
+		if pre := "(- "; strings.HasPrefix(idx.S, pre) && strings.HasSuffix(idx.S, " "+xv.S[1].S+")") && !strings.Contains(idx.S[3:], "(") {
 			// idx is (j - off): the absolute position is j
 			pos = Term{idx.S[len(pre) : len(idx.S)-len(xv.S[1].S)-2], idx.So}
+		} else if m := shiftRe.FindStringSubmatch(idx.S); m != nil && fmt.Sprintf(shifted, m[2]) == "(- "+m[2]+" "+m[3]+")" && m[3] == xv.S[1].S {
+			// idx is ((j - off) +/- k): the absolute position is (j +/- k)
+			pos = App(m[1], idx.So, Term{m[2], idx.So}, Term{m[4], idx.So})
 		}
 		for i, sl := range ls {
 			arr := Select(u.comp(e.st, elemComp(tt.Elem(), sl.Suffix), ArrSort(SInt, ArrSort(u.IntSort(), sl.So))), xv.S[0])
@@ -909,6 +939,7 @@ func (e *Env) equal(a, b Val) (Term, error) {
 
 func (e *Env) quant(t EQuant) (Val, error) {
 	u := e.u()
+	t = EQuant{t.Forall, t.Vars, e.inlineSpecs(t.Body, 0)}
 	n := e.clone()
 	var decls []string
 	var ranges []Term
@@ -1022,6 +1053,111 @@ func (e *Env) quant(t EQuant) (Val, error) {
 	}
 	return scalar(types.Typ[types.Bool], Term{fmt.Sprintf("(%s (%s) %s)", q, strings.Join(decls, " "), body.S), SBool}), nil
 }
+
+// inlineSpecs replaces calls of (plain, old-free) spec functions by their bodies at AST level, so that syntactic
+// analyses (index shift) see through them.
+func (e *Env) inlineSpecs(ex Expr, depth int) Expr {
+	if ex == nil || depth > 8 {
+		return ex
+	}
+	rec := func(x Expr) Expr { return e.inlineSpecs(x, depth) }
+	switch t := ex.(type) {
+	case EUnary:
+		return EUnary{t.Op, rec(t.X)}
+	case EBinary:
+		return EBinary{t.Op, rec(t.X), rec(t.Y)}
+	case ECond:
+		return ECond{rec(t.C), rec(t.A), rec(t.B)}
+	case ESel:
+		return ESel{rec(t.X), t.Name}
+	case EIndex:
+		return EIndex{rec(t.X), rec(t.I)}
+	case EOld:
+		return EOld{X: rec(t.X), Label: t.Label}
+	case EQuant:
+		return EQuant{t.Forall, t.Vars, rec(t.Body)}
+	case ETypeIs:
+		return ETypeIs{rec(t.X), t.Type}
+	case ECast:
+		return ECast{rec(t.X), t.Type}
+	case EDeref:
+		return EDeref{rec(t.X)}
+	case ECall:
+		args := make([]Expr, len(t.Args))
+		for i, a := range t.Args {
+			args[i] = rec(a)
+		}
+		sf, ok := e.x.cs.Specs[t.Fn]
+		if !ok || sf.Uninterp || sf.Body == nil || (sf.HasMode && sf.Mode != e.u().Mode) || len(sf.Params) != len(args) {
+			return ECall{t.Fn, args}
+		}
+		hasOld := false
+		walkExpr(sf.Body, func(x Expr) {
+			if _, ok := x.(EOld); ok {
+				hasOld = true
+			}
+		})
+		if hasOld {
+			return ECall{t.Fn, args}
+		}
+		sub := map[string]Expr{}
+		for i, p := range sf.Params {
+			sub[p.Name] = args[i]
+		}
+		return e.inlineSpecs(substExpr(sf.Body, sub), depth+1)
+	}
+	return ex
+}
+
+func substExpr(ex Expr, sub map[string]Expr) Expr {
+	if ex == nil {
+		return nil
+	}
+	rec := func(x Expr) Expr { return substExpr(x, sub) }
+	switch t := ex.(type) {
+	case EIdent:
+		if r, ok := sub[t.Name]; ok {
+			return r
+		}
+		return t
+	case EUnary:
+		return EUnary{t.Op, rec(t.X)}
+	case EBinary:
+		return EBinary{t.Op, rec(t.X), rec(t.Y)}
+	case ECond:
+		return ECond{rec(t.C), rec(t.A), rec(t.B)}
+	case ESel:
+		return ESel{rec(t.X), t.Name}
+	case EIndex:
+		return EIndex{rec(t.X), rec(t.I)}
+	case ECall:
+		args := make([]Expr, len(t.Args))
+		for i, a := range t.Args {
+			args[i] = rec(a)
+		}
+		return ECall{t.Fn, args}
+	case EOld:
+		return EOld{X: rec(t.X), Label: t.Label}
+	case EQuant:
+		inner := map[string]Expr{}
+		for k, v := range sub {
+			inner[k] = v
+		}
+		for _, b := range t.Vars {
+			delete(inner, b.Name)
+		}
+		return EQuant{t.Forall, t.Vars, substExpr(t.Body, inner)}
+	case ETypeIs:
+		return ETypeIs{rec(t.X), t.Type}
+	case ECast:
+		return ECast{rec(t.X), t.Type}
+	case EDeref:
+		return EDeref{rec(t.X)}
+	}
+	return ex
+}
+
+var shiftRe = regexp.MustCompile(`^\(([+-]) \(- (q![0-9]+_[A-Za-z0-9_]+) ([^\s()]+)\) ([0-9]+)\)$`)
 
 func boundNames(t EQuant) map[string]bool {
 	m := map[string]bool{}
@@ -1170,6 +1306,34 @@ func (e *Env) callExpr(t ECall) (Val, error) {
 		}
 		r, err := e.x.convert(e.st, v, v.T, types.Typ[types.String])
 		return r, err
+	case "concat": // string concatenation
+		a, err := e.Eval(t.Args[0])
+		if err != nil {
+			return Val{}, err
+		}
+		b, err := e.Eval(t.Args[1])
+		if err != nil {
+			return Val{}, err
+		}
+		return scalar(types.Typ[types.String], App("scat", SStr, a.One(), b.One())), nil
+	case "chansent": // number of values sent on a channel by the code under verification
+		v, err := e.Eval(t.Args[0])
+		if err != nil {
+			return Val{}, err
+		}
+		return scalar(nil, Select(u.comp(e.st, "GF$chan$sent", ArrSort(SInt, SInt)), v.One())), nil
+	case "chanlast": // the last value sent on a channel of interface element type
+		v, err := e.Eval(t.Args[0])
+		if err != nil {
+			return Val{}, err
+		}
+		ct, ok := types.Unalias(v.T).Underlying().(*types.Chan)
+		if !ok {
+			return Val{}, fmt.Errorf("chanlast: not a channel")
+		}
+		return Val{T: ct.Elem(), S: []Term{
+			Select(u.comp(e.st, "GF$chan$last%tag", ArrSort(SInt, SInt)), v.One()),
+			Select(u.comp(e.st, "GF$chan$last%val", ArrSort(SInt, SInt)), v.One())}}, nil
 	case "now": // the ghost clock: the latest reading of time.Now()
 		return scalar(nil, u.ghost(e.st, "time.now", SInt)), nil
 	case "isfresh": // allocated after the pre-state
@@ -1243,6 +1407,15 @@ func (e *Env) callExpr(t ECall) (Val, error) {
 			return Val{}, err
 		}
 		return scalar(nil, v.S[0]), nil
+	case "off": // offset of a slice within its backing array
+		v, err := e.Eval(t.Args[0])
+		if err != nil {
+			return Val{}, err
+		}
+		if v.T == nil || classify(v.T) != KSlice {
+			return Val{}, fmt.Errorf("off(): not a slice")
+		}
+		return scalar(types.Typ[types.Int], v.S[1]), nil
 	case "ref": // identity of a pointer value as an Int
 		v, err := e.Eval(t.Args[0])
 		if err != nil {
@@ -1334,21 +1507,5 @@ func (e *Env) uninterpreted(sf *SpecFunc) (Val, error) {
 	return scalar(rt, App(name, ls[0].So, args...)), nil
 }
 
-// globalFacts adds what is assumed about package-level variables.
-func (x *Exec) globalFacts(o *types.Var, v Val) {
-	if classify(o.Type()) == KIface && strings.HasPrefix(o.Name(), "Err") {
-		key := o.Pkg().Path() + "." + o.Name()
-		if x.sentinels == nil {
-			x.sentinels = map[string]Val{}
-		}
-		if _, ok := x.sentinels[key]; ok {
-			return
-		}
-		x.u.Trust("package-level error sentinels (Err*) are non-nil, pairwise distinct and never reassigned")
-		x.u.Assume(Neq(v.S[0], IntLit(0)))
-		for _, o2 := range x.sentinels {
-			x.u.Assume(Or(Neq(v.S[0], o2.S[0]), Neq(v.S[1], o2.S[1])))
-		}
-		x.sentinels[key] = v
-	}
-}
+// globalFacts: nothing beyond what LoadAddr states for error sentinels.
+func (x *Exec) globalFacts(o *types.Var, v Val) {}
